@@ -1,12 +1,31 @@
 #!/usr/bin/env python3
-"""Sensitivity regression: apply every kept seeded change to /repo in turn, run the target
-   property's quick check, undo; report any change that is no longer detected.
-   usage: tools/seed_rerun_all.py [ids...]     (writes /verif/seeded/RERUN.json)"""
-import glob, json, os, subprocess, sys, time
-want = set(sys.argv[1:])
-def sh(cmd, cwd="/verif"):
-    p = subprocess.run(cmd, cwd=cwd, capture_output=True, text=True)
+"""Sensitivity regression: apply every kept seeded change in turn, run the target property's
+   quick check, undo; report any change that is no longer detected.
+
+   usage: tools/seed_rerun_all.py [--jobs N] [ids...]     (writes /verif/seeded/RERUN.json)
+
+   --jobs 1 (default): literally in /repo - git apply, ./check <id> quick, git checkout.
+   --jobs N: N scratch git worktrees of /repo's HEAD under /tmp/pv-rerun, each with its own copy
+   of the harness source (Cargo.toml pointing at that worktree) and its own output directory, so
+   /repo, /verif/evidence and /verif/replays are not touched; everything under /tmp/pv-rerun is
+   removed at the end.  The harness that is copied is the working tree of /verif/harness."""
+import glob, json, os, shutil, subprocess, sys, threading, time
+
+args = sys.argv[1:]
+jobs = 1
+if "--jobs" in args:
+    i = args.index("--jobs")
+    jobs = int(args[i + 1])
+    del args[i:i + 2]
+want = set(args)
+ENV = dict(os.environ, CARGO_NET_OFFLINE="true")
+
+
+def sh(cmd, cwd="/verif", env=None):
+    p = subprocess.run(cmd, cwd=cwd, capture_output=True, text=True, env=env or ENV)
     return p.returncode, p.stdout + p.stderr
+
+
 assert sh(["git", "-C", "/repo", "status", "--short"])[1].strip() == "", "/repo not clean"
 out = {"harness_commit": sh(["git", "rev-parse", "--short", "HEAD"])[1].strip(), "results": {}}
 if want and os.path.exists("/verif/seeded/RERUN.json"):
@@ -14,26 +33,92 @@ if want and os.path.exists("/verif/seeded/RERUN.json"):
     old = json.load(open("/verif/seeded/RERUN.json"))
     out["results"] = old.get("results", {})
     out["partial_update_of"] = old.get("harness_commit")
-missed = []
+
+todo = []
 for d in sorted(glob.glob("/verif/seeded/*/")):
     sid = os.path.basename(d.rstrip("/"))
     if want and sid not in want:
         continue
-    meta = json.load(open(d + "meta.json"))
-    prop = meta["breaks_property"]
-    rc, o = sh(["git", "-C", "/repo", "apply", d + "patch.diff"])
-    if rc != 0:
-        out["results"][sid] = {"error": "does not apply"}; missed.append(sid); continue
-    try:
-        t0 = time.time()
-        rc, o = sh(["./check", prop, "quick"])
-        det = rc == 1 and "VIOLATION property=%s" % prop in o
+    todo.append((sid, d, json.load(open(d + "meta.json"))["breaks_property"]))
+
+lock = threading.Lock()
+
+
+def record(sid, prop, rc, o, t0):
+    det = rc == 1 and "VIOLATION property=%s" % prop in o
+    with lock:
         out["results"][sid] = {"check": prop, "exit": rc, "detected": det, "wall_s": round(time.time() - t0, 1)}
         print(sid, "detected" if det else "MISSED (exit %d)" % rc, flush=True)
-        if not det:
-            missed.append(sid)
+
+
+if jobs <= 1:
+    out["how"] = "git -C /repo apply; ./check <property> quick; git -C /repo checkout -- ."
+    for sid, d, prop in todo:
+        rc, o = sh(["git", "-C", "/repo", "apply", d + "patch.diff"])
+        if rc != 0:
+            out["results"][sid] = {"error": "does not apply", "detected": False}
+            continue
+        try:
+            t0 = time.time()
+            rc, o = sh(["./check", prop, "quick"])
+            record(sid, prop, rc, o, t0)
+        finally:
+            sh(["git", "-C", "/repo", "checkout", "--", "."])
+else:
+    out["how"] = "%d scratch worktrees of /repo HEAD with private harness copies under /tmp/pv-rerun (removed afterwards); pv <property> quick" % jobs
+    root = "/tmp/pv-rerun"
+    shutil.rmtree(root, ignore_errors=True)
+    sh(["git", "-C", "/repo", "worktree", "prune"])
+    os.makedirs(root)
+    workers = []
+    try:
+        for k in range(jobs):
+            wt, hc, vd = "%s/wt%d" % (root, k), "%s/h%d" % (root, k), "%s/v%d" % (root, k)
+            rc, o = sh(["git", "-C", "/repo", "worktree", "add", "--detach", wt, "HEAD"])
+            assert rc == 0, o
+            shutil.copytree("/verif/harness", hc, ignore=shutil.ignore_patterns("target", "work", "corpus", "artifacts"))
+            toml = open(hc + "/Cargo.toml").read().replace('path = "/repo"', 'path = "%s"' % wt)
+            open(hc + "/Cargo.toml", "w").write(toml)
+            os.makedirs(vd)
+            for sub in ("regressions", "known_findings.json"):
+                src = "/verif/" + sub
+                (shutil.copytree if os.path.isdir(src) else shutil.copy)(src, vd + "/" + sub)
+            workers.append((wt, hc, vd))
+        queue = list(todo)
+
+        def work(wt, hc, vd):
+            env = dict(ENV, VERIF_DIR=vd)
+            while True:
+                with lock:
+                    if not queue:
+                        return
+                    sid, d, prop = queue.pop(0)
+                sh(["git", "checkout", "-q", "--", "."], cwd=wt)
+                rc, o = sh(["git", "apply", d + "patch.diff"], cwd=wt)
+                if rc != 0:
+                    with lock:
+                        out["results"][sid] = {"error": "does not apply", "detected": False}
+                    continue
+                t0 = time.time()
+                rc, o = sh(["cargo", "build", "--release", "--offline"], cwd=hc, env=env)
+                if rc != 0:
+                    with lock:
+                        out["results"][sid] = {"error": "build failed", "detected": False}
+                        print(sid, "BUILD FAILED", o[-300:], flush=True)
+                    continue
+                rc, o = sh([hc + "/target/release/pv", prop, "quick"], cwd=hc, env=env)
+                record(sid, prop, rc, o, t0)
+                sh(["git", "checkout", "-q", "--", "."], cwd=wt)
+
+        ts = [threading.Thread(target=work, args=w) for w in workers]
+        [t.start() for t in ts]
+        [t.join() for t in ts]
     finally:
-        sh(["git", "-C", "/repo", "checkout", "--", "."])
+        for wt, _, _ in workers:
+            sh(["git", "-C", "/repo", "worktree", "remove", "--force", wt])
+        sh(["git", "-C", "/repo", "worktree", "prune"])
+        shutil.rmtree(root, ignore_errors=True)
+
 out["missed"] = sorted(k for k, v in out["results"].items() if not v.get("detected"))
-json.dump(out, open("/verif/seeded/RERUN.json", "w"), indent=1)
-print("done: %d changes, %d missed: %s" % (len(out["results"]), len(missed), missed))
+json.dump(out, open("/verif/seeded/RERUN.json", "w"), indent=1, sort_keys=True)
+print("done: %d changes, %d missed: %s" % (len(out["results"]), len(out["missed"]), out["missed"]))
